@@ -33,7 +33,89 @@ FMOD = z3.Function("fmod", F64, F64, F64)
 FDIV = z3.Function("hwdiv", F64, F64, F64)
 ERR = "ERR"
 
+
+class Interp:
+    """IEEE semantics of the rounding operations"""
+
+    name = "interpreted"
+
+    @staticmethod
+    def fmod(a: Any, b: Any) -> Any:
+        return FMOD(a, b)
+
+    @staticmethod
+    def div(a: Any, b: Any) -> Any:
+        return FDIV(a, b)
+
+    @staticmethod
+    def add(a: Any, b: Any) -> Any:
+        return z3.fpAdd(RNE, a, b)
+
+    @staticmethod
+    def sub(a: Any, b: Any) -> Any:
+        return z3.fpSub(RNE, a, b)
+
+    @staticmethod
+    def mul(a: Any, b: Any) -> Any:
+        return z3.fpMul(RNE, a, b)
+
+    @staticmethod
+    def floor(a: Any) -> Any:
+        return z3.fpRoundToIntegral(z3.RTN(), a)
+
+
+class Abstract:
+    """add / sub / mul / floor as uninterpreted functions shared by the implementation and the
+    reference: equality under every interpretation implies equality under the IEEE one"""
+
+    name = "abstract"
+    fmod = staticmethod(lambda a, b: FMOD(a, b))
+    div = staticmethod(lambda a, b: FDIV(a, b))
+    _add = z3.Function("ADD", F64, F64, F64)
+    _sub = z3.Function("SUB", F64, F64, F64)
+    _mul = z3.Function("MUL", F64, F64, F64)
+    _floor = z3.Function("FLOOR", F64, F64)
+
+    @classmethod
+    def add(cls, a: Any, b: Any) -> Any:
+        return cls._add(a, b)
+
+    @classmethod
+    def sub(cls, a: Any, b: Any) -> Any:
+        return cls._sub(a, b)
+
+    @classmethod
+    def mul(cls, a: Any, b: Any) -> Any:
+        return cls._mul(a, b)
+
+    @classmethod
+    def floor(cls, a: Any) -> Any:
+        return cls._floor(a)
+
 SHIM = '#include <Python.h>\n#include "CPy.h"\n#include "float_ops.c"\n'
+
+
+class UnitDivisor(Interp):
+    """witness search only: the divisor is the constant 1.0 and the dividend is integral, where
+    fmod(a, 1.0) = +-0 (sign of a) and a / 1.0 = a are facts of IEEE arithmetic"""
+
+    name = "divisor 1.0"
+
+    @staticmethod
+    def _unit(b: Any) -> None:
+        if not z3.eq(z3.simplify(b), z3.simplify(z3.FPVal(1.0, F64))):
+            raise L.IRUnsupported("witness search: a divisor other than the constant 1.0")
+
+    @classmethod
+    def fmod(cls, a: Any, b: Any) -> Any:
+        cls._unit(b)
+        z = z3.FPVal(0.0, F64)
+        return z3.If(z3.fpIsNegative(a), z3.fpNeg(z), z)
+
+    @classmethod
+    def div(cls, a: Any, b: Any) -> Any:
+        cls._unit(b)
+        return a
 
 
 def fpconst(tok: str) -> Any:
@@ -45,7 +127,8 @@ def fpconst(tok: str) -> Any:
 class FPExec:
     """path-merging executor for loop-free double-only functions"""
 
-    def __init__(self, fn: L.Func) -> None:
+    def __init__(self, fn: L.Func, sem: Any = Interp) -> None:
+        self.sem = sem
         self.fn = fn
         self.blocks = {b.label: b for b in fn.blocks}
 
@@ -97,7 +180,7 @@ class FPExec:
                 elif ins.op in ("fadd", "fsub", "fmul", "fdiv"):
                     m = re.match(r"f\w+\s+(?:\w+\s+)*?double\s+([^,]+),\s*(.+)$", t)
                     a, b = self.val(m.group(1), env), self.val(m.group(2), env)
-                    env[ins.dest] = {"fadd": lambda: z3.fpAdd(RNE, a, b), "fsub": lambda: z3.fpSub(RNE, a, b), "fmul": lambda: z3.fpMul(RNE, a, b), "fdiv": lambda: FDIV(a, b)}[ins.op]()
+                    env[ins.dest] = {"fadd": lambda: self.sem.add(a, b), "fsub": lambda: self.sem.sub(a, b), "fmul": lambda: self.sem.mul(a, b), "fdiv": lambda: self.sem.div(a, b)}[ins.op]()
                 elif ins.op == "fneg":
                     env[ins.dest] = z3.fpNeg(self.val(t.split()[-1], env))
                 elif ins.op in ("xor", "and", "or") and " i1 " in t:
@@ -117,9 +200,9 @@ class FPExec:
                     cargs = [a.strip() for a in L._split_args(m.group(3))]
                     dargs = [self.val(re.sub(r"^double\s+(?:noundef\s+)?", "", a), env) for a in cargs if a.startswith("double")]
                     if callee == "fmod":
-                        env[ins.dest] = FMOD(dargs[0], dargs[1])
+                        env[ins.dest] = self.sem.fmod(dargs[0], dargs[1])
                     elif callee == "llvm.floor.f64" or callee == "floor":
-                        env[ins.dest] = z3.fpRoundToIntegral(z3.RTN(), dargs[0])
+                        env[ins.dest] = self.sem.floor(dargs[0])
                     elif callee in ("llvm.copysign.f64", "copysign"):
                         env[ins.dest] = z3.If(z3.fpIsNegative(dargs[1]), z3.fpNeg(z3.fpAbs(dargs[0])), z3.fpAbs(dargs[0]))
                     elif callee in ("llvm.fabs.f64", "fabs"):
@@ -146,18 +229,18 @@ class FPExec:
         return out
 
 
-def ref_divmod(vx: Any, wx: Any) -> tuple[Any, Any]:
+def ref_divmod(vx: Any, wx: Any, sem: Any = Interp) -> tuple[Any, Any]:
     """Objects/floatobject.c _float_div_mod (CPython 3.12), wx != 0"""
     zero = z3.FPVal(0.0, F64)
-    mod = FMOD(vx, wx)
-    div = FDIV(z3.fpSub(RNE, vx, mod), wx)
+    mod = sem.fmod(vx, wx)
+    div = sem.div(sem.sub(vx, mod), wx)
     nonzero_mod = z3.Not(z3.fpEQ(mod, zero))  # `if (mod)`: false for +-0, true for NaN
     adjust = z3.And(nonzero_mod, z3.Xor(z3.fpLT(wx, zero), z3.fpLT(mod, zero)))
-    mod2 = z3.If(nonzero_mod, z3.If(adjust, z3.fpAdd(RNE, mod, wx), mod), z3.If(z3.fpIsNegative(wx), z3.fpNeg(zero), zero))
-    div2 = z3.If(adjust, z3.fpAdd(RNE, div, z3.FPVal(-1.0, F64)), div)  # div -= 1.0 (x - 1.0 is x + (-1.0) in IEEE arithmetic)
-    fl = z3.fpRoundToIntegral(z3.RTN(), div2)
-    snapped = z3.If(z3.fpGT(z3.fpSub(RNE, div2, fl), z3.FPVal(0.5, F64)), z3.fpAdd(RNE, fl, z3.FPVal(1.0, F64)), fl)
-    q = FDIV(vx, wx)
+    mod2 = z3.If(nonzero_mod, z3.If(adjust, sem.add(mod, wx), mod), z3.If(z3.fpIsNegative(wx), z3.fpNeg(zero), zero))
+    div2 = z3.If(adjust, sem.add(div, z3.FPVal(-1.0, F64)), div)  # div -= 1.0 (x - 1.0 is x + (-1.0) in IEEE arithmetic)
+    fl = sem.floor(div2)
+    snapped = z3.If(z3.fpGT(sem.sub(div2, fl), z3.FPVal(0.5, F64)), sem.add(fl, z3.FPVal(1.0, F64)), fl)
+    q = sem.div(vx, wx)
     zq = z3.If(z3.fpIsNegative(q), z3.fpNeg(zero), zero)
     floordiv = z3.If(z3.Not(z3.fpEQ(div2, zero)), snapped, zq)
     return floordiv, mod2
@@ -179,11 +262,46 @@ def run(rep: Any, tier: str) -> None:
     funcs = L.parse_module(text)
     x, y = z3.FP("x", F64), z3.FP("y", F64)
     zero = z3.FPVal(0.0, F64)
-    ref_fd, ref_mod = ref_divmod(x, y)
-    stats = {"queries": 0, "discharged": 0, "solver_s": 0.0, "inconclusive": 0}
+    stats = {"queries": 0, "discharged": 0, "solver_s": 0.0, "inconclusive": 0, "discharged_abstractly": 0}
     found: dict = {}
     reached = {"err": False, "value": False}
-    for fname, ref in (("CPyFloat_FloorDivide", ref_fd), ("CPyFloat_Mod", ref_mod)):
+    one = z3.FPVal(1.0, F64)
+
+    def ask(solver: Any) -> str:
+        t = time.time()
+        r = str(solver.check())
+        stats["solver_s"] += time.time() - t
+        stats["queries"] += 1
+        return r
+
+    def goals_for(fn: Any, sem: Any, which: int, yv: Any = y) -> list:
+        ref = ref_divmod(x, yv, sem)[which]
+        out = []
+        for i, (pc, res, err) in enumerate(FPExec(fn, sem).run([x, yv])):
+            if err:
+                out.append((i, "ZeroDivisionError only when the divisor is zero", pc, z3.fpEQ(y, zero)))
+                reached["err"] = True
+            else:
+                out.append((i, "no error is raised only when the divisor is non-zero", pc, z3.Not(z3.fpEQ(y, zero))))
+                out.append((i, "result equals CPython's float_divmod algorithm bit for bit", pc, same(res, ref)))
+                reached["value"] = True
+        return out
+
+    # region hints for the witness search only (a witness is replayed against a real build, so a hint can
+    # hide a witness but never create one): divisor 1.0 and an integral dividend, where fmod(x, 1) = +-0 and
+    # x / 1 = x are facts of IEEE arithmetic
+    def regions() -> list:
+        bx = z3.fpToIEEEBV(x)
+        expo = z3.Extract(62, 52, bx)
+        return [
+            ("2^52 <= |x| < 2^53", expo == 1075),
+            ("2^51 <= |x| < 2^52", expo == 1074),
+            ("2^53 <= |x| < 2^54", expo == 1076),
+            ("|x| < 2^10", z3.ULT(expo, 1033)),
+            ("any integral x", z3.BoolVal(True)),
+        ]
+
+    for which, fname in ((0, "CPyFloat_FloorDivide"), (1, "CPyFloat_Mod")):
         fn = funcs.get(fname)
         if fn is None and fname != "CPyFloat_FloorDivide":
             continue  # no separate definition in this version of float_ops.c
@@ -191,50 +309,56 @@ def run(rep: Any, tier: str) -> None:
             rep.error(f"K3: {fname} not found in the IR of float_ops.c")
             continue
         rep.kernel("mypyc/lib-rt/float_ops.c:" + fname, L.func_hash(fn))
-        paths = FPExec(fn).run([x, y])
-        for pc, res, err in paths:
-            goals = []
-            if err:
-                goals.append(("ZeroDivisionError only when the divisor is zero", z3.fpEQ(y, zero)))
-                reached["err"] = True
-            else:
-                goals.append(("no error is raised only when the divisor is non-zero", z3.Not(z3.fpEQ(y, zero))))
-                goals.append(("result equals CPython's float_divmod algorithm bit for bit", same(res, ref)))
-                reached["value"] = True
-            for label, g in goals:
-                s = z3.Solver()
-                s.set("timeout", 120000)
-                s.add(pc, z3.Not(g))
-                t = time.time()
-                r = str(s.check())
-                stats["solver_s"] += time.time() - t
-                stats["queries"] += 1
-                if r == "unsat":
-                    stats["discharged"] += 1
-                elif r == "unknown":
-                    stats["inconclusive"] += 1
-                    rep.error(f"K3: inconclusive query for {fname}: {label}")
-                else:
-                    # make the witness real: divisor 1.0, integral dividend (fmod = +-0, x/1 = x are facts)
-                    s2 = z3.Solver()
-                    s2.set("timeout", 120000)
-                    one = z3.FPVal(1.0, F64)
-                    s2.add(pc, z3.Not(g), y == one, z3.fpEQ(z3.fpRoundToIntegral(RNE, x), x), z3.Not(z3.fpIsInf(x)), z3.Not(z3.fpIsNaN(x)))
-                    s2.add(FMOD(x, y) == z3.If(z3.fpIsNegative(x), z3.fpNeg(zero), zero), FDIV(x, y) == x, FDIV(z3.fpSub(RNE, x, FMOD(x, y)), y) == z3.fpSub(RNE, x, FMOD(x, y)))
-                    t = time.time()
-                    r2 = str(s2.check())
-                    stats["solver_s"] += time.time() - t
-                    stats["queries"] += 1
-                    m = s2.model() if r2 == "sat" else s.model()
-
-                    def fval(v: Any) -> float:
-                        bv = m.eval(z3.fpToIEEEBV(v), model_completion=True).as_long()
+        abstract = goals_for(fn, Abstract, which)
+        concrete = goals_for(fn, Interp, which)
+        if len(abstract) != len(concrete):
+            rep.error("K3: abstract and interpreted executions disagree on the number of paths")
+            continue
+        for (i, label, pc_a, g_a), (_, _, pc, g) in zip(abstract, concrete):
+            # stage 1: rounding operations uninterpreted -- congruence and comparisons only
+            s1 = z3.Solver()
+            s1.set("timeout", 60000)
+            s1.add(pc_a, z3.Not(g_a))
+            if ask(s1) == "unsat":
+                stats["discharged"] += 1
+                stats["discharged_abstractly"] += 1
+                continue
+            # stage 2: IEEE semantics
+            s2 = z3.Solver()
+            s2.set("timeout", 60000)
+            s2.add(pc, z3.Not(g))
+            r = ask(s2)
+            if r == "unsat":
+                stats["discharged"] += 1
+                continue
+            # refuted or undecided: look for a witness that real arithmetic produces
+            witness = None
+            try:
+                unit = goals_for(fn, UnitDivisor, which, one)
+            except L.IRUnsupported:
+                unit = []
+            for rname, rc in regions():
+                for (_, ulabel, upc, ug) in unit:
+                    if ulabel != label:
+                        continue
+                    s3 = z3.Solver()
+                    s3.set("timeout", 30000)
+                    s3.add(upc, z3.Not(ug), z3.fpEQ(z3.fpRoundToIntegral(RNE, x), x), z3.Not(z3.fpIsInf(x)), z3.Not(z3.fpIsNaN(x)), rc)
+                    if ask(s3) == "sat":
+                        m = s3.model()
                         import struct
 
-                        return struct.unpack("<d", struct.pack("<Q", bv))[0]
-
-                    found.setdefault(f"{fname}: {label}", (fname, fval(x), fval(y), r2 == "sat"))
-    rep.section("K3 native float // and % vs CPython's float_divmod (IEEE doubles, full width)", obligations=stats["queries"], discharged=stats["discharged"], inconclusive=stats["inconclusive"], solver_s=round(stats["solver_s"], 3))
+                        bv = m.eval(z3.fpToIEEEBV(x), model_completion=True).as_long()
+                        witness = (struct.unpack("<d", struct.pack("<Q", bv))[0], rname)
+                        break
+                if witness is not None:
+                    break
+            if witness is None:
+                stats["inconclusive"] += 1
+                rep.error(f"K3: {fname}: '{label}' is not discharged ({r}) and no witness with divisor 1.0 was found")
+            else:
+                found.setdefault(f"{fname}: {label}", (fname, witness[0], 1.0, True))
+    rep.section("K3 native float // and % vs CPython's float_divmod (IEEE doubles, full width)", obligations=stats["queries"], discharged=stats["discharged"], inconclusive=stats["inconclusive"], solver_s=round(stats["solver_s"], 3), discharged_with_uninterpreted_rounding=stats["discharged_abstractly"])
     rep.add_counts(stats["queries"], stats["discharged"], stats["queries"], stats["solver_s"], inconclusive=stats["inconclusive"])
     rep.twin("K3: the error exit and a value path of the float helpers were reached", reached["err"] and reached["value"])
     rep.bounds.append("K3: CPyFloat_FloorDivide / CPyFloat_Mod on every pair of IEEE doubles; fmod and hardware division are shared uninterpreted functions (the reference applies them to the same operands)")
